@@ -649,3 +649,16 @@ Definition relabel (rho : pyval -> pyval) (r : rawcall) : rawcall :=
         (option_map (map rho) (r_output r))
         (option_map (map (fun kv => (rho (fst kv), snd kv))) (r_size_dict r))
         (r_shapes r) (r_optimize r) (r_canon r) (r_inputs_are_lists r) (r_kwargs r) (r_cache r) (r_hcls r).
+
+(* ------------------------------------------------------------------ *)
+(* the path cache and the expression cache together: a call is tagged with the function it goes
+   through; each function uses the dict `tag kind`.  Two dicts are modelled as one dict whose keys
+   carry the dict's identity as first component -- equivalent exactly when the identities differ;
+   a constant `tag` is the machine in which both functions share ONE dict. *)
+Inductive ckind := KPathCall | KExprCall.
+Definition two_dkey (tag : ckind -> pyval) (e : henv) (kx : ckind -> kexpr) (c : ckind * ncall) : pyval :=
+  PTuple [tag (fst c); nc_dkey e (kx (fst c)) (snd c)].
+Definition two_use (c : ckind * ncall) : bool := nc_use (snd c).
+Definition two_keyok (kx : ckind -> kexpr) (c : ckind * ncall) : bool := nc_keyok (kx (fst c)) (snd c).
+Definition codes_of_string (s : string) : list nat :=
+  map Ascii.nat_of_ascii (list_ascii_of_string s).
